@@ -72,7 +72,13 @@ func ruleJoin(c *Ctx, rule string) {
 							repChan = x.Chan
 						case ssa.CallInstruction:
 							if bi, isB := x.Common().Value.(*ssa.Builtin); isB && bi.Name() == "close" && len(x.Common().Args) == 1 {
-								repChan, isClose = x.Common().Args[0], true
+								// only a pure signal channel (chan struct{}): closing a data channel is part of the protocol with
+								// its receivers (the shared accept channel), not a report to the function that started the goroutine
+								if ct, isCh := x.Common().Args[0].Type().Underlying().(*types.Chan); isCh {
+									if st, isSt := ct.Elem().Underlying().(*types.Struct); isSt && st.NumFields() == 0 {
+										repChan, isClose = x.Common().Args[0], true
+									}
+								}
 							}
 						}
 						if repChan == nil {
